@@ -1,0 +1,242 @@
+//go:build verif
+
+// Contracts for the verifier in /verif (comment-only file; compiled only with -tags verif).
+// C20 / C19: the session controller state machine (u_session_controller.go).
+// C16: GREASE ECH extension (u_ech.go).
+
+package tls
+
+// ---------------------------------------------------------------------------------------------
+// helpers of u_common.go
+
+//@ func uAssert
+//@   property C20 C19 C16
+//@   panics when !condition
+//@   pure
+
+// panicOnNil compares each parameter, converted to `any`, with the nil interface.
+//@ func panicOnNil
+//@   property C20 C19
+//@   panics when exists i in 0..len(params): params[i] == nil
+//@   pure
+//@   loop 0 invariant -1 <= $rangeindex && $rangeindex < len(params)
+//@   loop 0 invariant forall j in 0..$k: params[j] != nil
+
+// ---------------------------------------------------------------------------------------------
+// Representation invariant of the session controller.
+//   * state and loadSessionTracker are one of their declared constants,
+//   * the controller is attached to a connection,
+//   * a ticket state (Initialized / AllSet) owns a session ticket extension, a psk state owns a psk extension,
+//   * while conn.loadSession runs (callingLoadSession) the tracker is still NeverCalled or UtlsAboutToCall,
+//   * a locked controller is in one of the three final states.
+//@ spec SC(s) = s != nil && s.uconnRef != nil && NoSession <= s.state && s.state <= PskExtAllSet && NeverCalled <= s.loadSessionTracker && s.loadSessionTracker <= CalledByGoTLS && ((s.state == SessionTicketExtInitialized || s.state == SessionTicketExtAllSet) ==> s.sessionTicketExt != nil) && ((s.state == PskExtInitialized || s.state == PskExtAllSet) ==> s.pskExtension != nil) && (s.callingLoadSession ==> s.loadSessionTracker == NeverCalled || s.loadSessionTracker == UtlsAboutToCall) && (s.locked ==> s.state == NoSession || s.state == SessionTicketExtAllSet || s.state == PskExtAllSet)
+
+//@ func newSessionController
+//@   property C20 C19
+//@   modifies nothing
+//@   ensures fresh: ret != nil && fresh(ret)
+//@   ensures init: ret.uconnRef == uconn && ret.sessionTicketExt == nil && ret.pskExtension == nil && ret.state == NoSession && !ret.locked && !ret.callingLoadSession && ret.loadSessionTracker == NeverCalled
+//@   ensures inv: uconn != nil ==> SC(ret)
+
+//@ func (*sessionController).isSessionLocked
+//@   property C20 C19
+//@   requires s != nil
+//@   pure
+//@   ensures ret <==> s.locked
+
+//@ func (*sessionController).shouldLoadSession
+//@   property C20 C19
+//@   requires SC(s)
+//@   pure
+//@   ensures skip: (s.sessionTicketExt == nil && s.pskExtension == nil) || s.uconnRef.clientHelloBuildStatus != NotBuilt ==> ret == shouldReturn
+//@   ensures ticket: ret == shouldSetTicket ==> s.state == SessionTicketExtInitialized && s.sessionTicketExt != nil && s.uconnRef.clientHelloBuildStatus == NotBuilt
+//@   ensures psk: ret == shouldSetPsk ==> s.state == PskExtInitialized && s.pskExtension != nil && s.uconnRef.clientHelloBuildStatus == NotBuilt
+//@   ensures load: ret == shouldLoad ==> s.state != SessionTicketExtInitialized && s.state != PskExtInitialized && s.uconnRef.clientHelloBuildStatus == NotBuilt && (s.sessionTicketExt != nil || s.pskExtension != nil)
+//@   ensures range: ret == shouldReturn || ret == shouldSetTicket || ret == shouldSetPsk || ret == shouldLoad
+
+//@ func (*sessionController).utlsAboutToLoadSession
+//@   property C20 C19
+//@   requires SC(s)
+//@   panics when s.state != NoSession || s.locked
+//@   modifies s.loadSessionTracker
+//@   ensures inv: SC(s)
+//@   ensures tracker: s.loadSessionTracker == UtlsAboutToCall
+
+//@ func (*sessionController).assertHelloNotBuilt
+//@   property C20 C19
+//@   requires s != nil && s.uconnRef != nil
+//@   panics when s.uconnRef.clientHelloBuildStatus != NotBuilt
+//@   pure
+
+//@ func (*sessionController).assertNotLocked
+//@   property C20 C19
+//@   requires s != nil
+//@   panics when s.locked
+//@   pure
+
+//@ func (*sessionController).assertCanSkip
+//@   property C20 C19
+//@   requires s != nil && s.uconnRef != nil
+//@   panics when !s.uconnRef.skipResumptionOnNilExtension
+//@   pure
+
+// the predicate handed to anyTrue
+//@ func (*sessionController).assertControllerState$1
+//@   property C20 C19
+//@   requires s != nil && *s != nil && state != nil
+//@   pure
+//@   ensures ret <==> (*s).state == *state
+
+// anyTrue is generic and higher order (it calls its predicate argument); the contract language cannot
+// relate its result to the closure, so its meaning for THIS closure is assumed at the call site
+// (anchor `anytrue`), everything else in assertControllerState is proved.
+//@ func (*sessionController).assertControllerState
+//@   property C20 C19
+//@   requires s != nil
+//@   assume-pure anyTrue[github.com/refraction-networking/utls.sessionControllerState]
+//@   panics when s.state != desired && forall i in 0..len(moreDesiredStates): moreDesiredStates[i] != s.state
+//@   pure
+//@   at after call anyTrue[github.com/refraction-networking/utls.sessionControllerState]#0: assume anytrue: res <==> exists i in 0..len(moreDesiredStates): moreDesiredStates[i] == s.state
+
+//@ func (*sessionController).finalCheck
+//@   property C20 C19
+//@   requires SC(s)
+//@   panics when s.state == SessionTicketExtInitialized || s.state == PskExtInitialized
+//@   modifies s.locked
+//@   ensures inv: SC(s)
+//@   ensures locked: s.locked
+
+//@ func (*sessionController).shouldUpdateBinders
+//@   property C20 C19
+//@   requires s != nil
+//@   pure
+//@   ensures ret <==> s.pskExtension != nil && (s.state == PskExtInitialized || s.state == PskExtAllSet)
+
+// ---------------------------------------------------------------------------------------------
+// conn.loadSession tracking. loadSession may run once per controller; a second entry is the documented panic.
+
+//@ func (*sessionController).onEnterLoadSessionCheck
+//@   property C20 C19
+//@   requires SC(s)
+//@   panics when s.locked || s.loadSessionTracker == CalledByULoadSession || s.loadSessionTracker == CalledByGoTLS
+//@   modifies s.callingLoadSession
+//@   ensures inv: SC(s)
+//@   ensures calling: s.callingLoadSession
+
+//@ func (*sessionController).onLoadSessionReturn
+//@   property C20 C19
+//@   requires SC(s)
+//@   requires entered: s.callingLoadSession
+//@   modifies s.callingLoadSession, s.loadSessionTracker
+//@   ensures inv: SC(s)
+//@   ensures done: !s.callingLoadSession
+//@   ensures bygo: old(s.loadSessionTracker) == NeverCalled ==> s.loadSessionTracker == CalledByGoTLS
+//@   ensures byutls: old(s.loadSessionTracker) == UtlsAboutToCall ==> s.loadSessionTracker == CalledByULoadSession
+
+//@ func (*sessionController).shouldLoadSessionWriteBinders
+//@   property C20 C19
+//@   requires SC(s)
+//@   requires entered: s.callingLoadSession
+//@   pure
+//@   ensures ret <==> s.loadSessionTracker == NeverCalled
+
+// ---------------------------------------------------------------------------------------------
+// Initialisation of the owned extensions with a session loaded from the cache (called by uLoadSession only).
+// The private state of an extension object is abstract: ghost(initialized, x) != 0 <==> x.IsInitialized()
+// (trusted interface contracts in /verif/contracts/trusted/session.vc).
+
+// initializationGuard is generic AND calls its function argument. A call through a function-typed
+// parameter is opaque for the generator, so the two instances are ASSUMED (trusted) to behave as their
+// source reads for an initializer that runs InitializeByUtls on the extension (the two closures below,
+// which are verified on their own):  assert !IsInitialized(); initializer(ext); assert IsInitialized().
+//@ trusted func tls.initializationGuard[github.com/refraction-networking/utls.ISessionTicketExtension func(e github.com/refraction-networking/utls.ISessionTicketExtension)]
+//@   requires extension != nil
+//@   panics when ghost(initialized, extension) != 0
+//@   modifies ghost(initialized, extension)
+//@   ensures ghost(initialized, extension) != 0
+
+//@ trusted func tls.initializationGuard[github.com/refraction-networking/utls.PreSharedKeyExtension func(e github.com/refraction-networking/utls.PreSharedKeyExtension)]
+//@   requires extension != nil
+//@   panics when ghost(initialized, extension) != 0
+//@   modifies ghost(initialized, extension)
+//@   ensures ghost(initialized, extension) != 0
+
+// the initializer handed to initializationGuard: the owned extension receives exactly the loaded session and ticket
+//@ func (*sessionController).initSessionTicketExt$1
+//@   property C20 C19
+//@   requires s != nil && *s != nil && session != nil && ticket != nil
+//@   requires owned: (*s).sessionTicketExt != nil
+//@   modifies ghost(initialized, (*s).sessionTicketExt)
+//@   ensures ghost(initialized, (*s).sessionTicketExt) != 0
+//@   at before call InitializeByUtls#0: assert given: arg0 == (*s).sessionTicketExt && arg1 == *session && arg2 == *ticket
+
+//@ func (*sessionController).initSessionTicketExt
+//@   property C20 C19
+//@   requires SC(s)
+//@   panics when s.locked || s.uconnRef.clientHelloBuildStatus != NotBuilt || s.state != NoSession
+//@   panics when s.sessionTicketExt == nil && !s.uconnRef.skipResumptionOnNilExtension
+//@   panics when s.sessionTicketExt != nil && ghost(initialized, s.sessionTicketExt) != 0
+//@   modifies s.state, ghost(initialized, s.sessionTicketExt)
+//@   ensures inv: SC(s)
+//@   ensures skipped: s.sessionTicketExt == nil ==> s.state == NoSession
+//@   ensures set: s.sessionTicketExt != nil ==> s.state == SessionTicketExtInitialized && ghost(initialized, s.sessionTicketExt) != 0
+//@   note panicOnNil(session, ticket) can never fire: a *SessionState / []byte converted to `any` is never the nil interface (cover:panic of that call is unreachable)
+
+//@ func (*sessionController).setSessionTicketToUConn
+//@   property C20 C19
+//@   requires SC(s)
+//@   requires hello: s.uconnRef.HandshakeState.Hello != nil
+//@   panics when s.sessionTicketExt == nil || s.state != SessionTicketExtInitialized
+//@   modifies s.state, s.uconnRef.HandshakeState.Session, s.uconnRef.HandshakeState.Hello.SessionTicket
+//@   ensures inv: SC(s)
+//@   ensures allset: s.state == SessionTicketExtAllSet
+//@   ensures asgiven: s.uconnRef.HandshakeState.Session == callres(GetSession, 0) && s.uconnRef.HandshakeState.Hello.SessionTicket == callres(GetTicket, 0)
+//@   at before call GetSession#0: assert owner: arg0 == s.sessionTicketExt
+//@   at before call GetTicket#0: assert owner2: arg0 == s.sessionTicketExt
+
+// ---- psk ----
+
+// mapSlice is generic and higher order: ASSUMED to map element-wise with the closure initPskExt$1$1
+// (label and obfuscated ticket age are copied); its body also appends to a slice of structs (unsupported).
+//@ trusted func tls.mapSlice[github.com/refraction-networking/utls.pskIdentity github.com/refraction-networking/utls.PskIdentity]
+//@   modifies nothing
+//@   ensures len(ret) == len(slice) && fresh(ret)
+//@   ensures forall j in 0..len(slice): ret[j].Label == slice[j].label && ret[j].ObfuscatedTicketAge == slice[j].obfuscatedTicketAge
+
+//@ func (*sessionController).initPskExt$1$1
+//@   property C20 C19
+//@   pure
+//@   ensures ret.Label == private.label && ret.ObfuscatedTicketAge == private.obfuscatedTicketAge
+
+// the initializer handed to initializationGuard: the extension receives the loaded session, the early secret
+// bytes, the binder key and the public form of the identities
+//@ func (*sessionController).initPskExt$1
+//@   property C20 C19
+//@   requires pskIdentities != nil && session != nil && earlySecret != nil && binderKey != nil
+//@   requires e != nil
+//@   modifies ghost(initialized, e)
+//@   ensures ghost(initialized, e) != 0
+//@   at before call InitializeByUtls#0: assert given: arg0 == e && arg1 == *session && arg3 == *binderKey && len(arg4) == len(*pskIdentities)
+//@   at before call InitializeByUtls#0: assert secret: *earlySecret != nil ==> arg2 == (*earlySecret).secret
+//@   at before call InitializeByUtls#0: assert ids: forall j in 0..len(arg4): arg4[j].Label == (*pskIdentities)[j].label && arg4[j].ObfuscatedTicketAge == (*pskIdentities)[j].obfuscatedTicketAge
+
+//@ func (*sessionController).initPskExt
+//@   property C20 C19
+//@   requires SC(s)
+//@   panics when s.locked || s.uconnRef.clientHelloBuildStatus != NotBuilt || s.state != NoSession
+//@   panics when s.pskExtension == nil && !s.uconnRef.skipResumptionOnNilExtension
+//@   panics when s.pskExtension != nil && ghost(initialized, s.pskExtension) != 0
+//@   modifies s.state, ghost(initialized, s.pskExtension)
+//@   ensures inv: SC(s)
+//@   ensures skipped: s.pskExtension == nil ==> s.state == NoSession
+//@   ensures set: s.pskExtension != nil ==> s.state == PskExtInitialized && ghost(initialized, s.pskExtension) != 0
+
+//@ func (*sessionController).updateBinders
+//@   property C20 C19
+//@   let h = s.uconnRef.HandshakeState.Hello
+//@   requires SC(s)
+//@   requires hello: h != nil
+//@   panics when s.pskExtension == nil || (s.state != PskExtInitialized && s.state != PskExtAllSet)
+//@   modifies *h, h.Raw[0..len(h.Raw)], ghost(pskBinders, s.pskExtension)
+//@   ensures inv: SC(s)
+//@   at before call PatchBuiltHello#0: assert owner: arg0 == s.pskExtension && arg1 == h
